@@ -45,6 +45,11 @@ def shapes(tier):
         for src in ("filename", "object", "inmem"):
             for nb in ((None,) if tier == "quick" and src != "object" else (None, 2)):
                 out.append({"entry": entry, "src": src, "n_batches": nb, "pool": 2 if nb is None else 1, "N": 2})
+    # argument forms at the edge of the documented ones (no injected fault needed): more prior samples requested than the object
+    # holds (must raise, nothing may be left behind); the user's file given as a path-like object instead of a str
+    out.append({"entry": "rejection", "src": "object", "n_batches": None, "pool": 1, "N": 2, "n_prior": 3})
+    for entry in ("marginal", "rejection"):
+        out.append({"entry": entry, "src": "pathlike", "n_batches": None, "pool": 1, "N": 2})
     # the cache-writing step with the real write_table_hdf5 (every h5py / os operation a crash point)
     for n in (1, 2):
         out.append({"family": "cache_write", "n": n, "interrupt": n == 2, "entry": "marginal", "src": "object", "n_batches": None, "pool": 1, "N": 2})
@@ -63,13 +68,17 @@ def _call(S, joker, shape, data, lib, lnp):
     src_kind = shape["src"]
     if src_kind == "filename":
         src = "user_lib.hdf5"
+    elif src_kind == "pathlike":
+        import pathlib
+        src = pathlib.PurePosixPath("user_lib.hdf5")
     else:
         src = S.as_samples(lib, lnp)
     inmem = src_kind == "inmem"
     if shape["entry"] == "marginal":
         return joker.marginal_ln_likelihood(data, src, n_batches=shape["n_batches"], in_memory=inmem)
     if shape["entry"] == "rejection":
-        return joker.rejection_sample(data, src, n_linear_samples=1, return_logprobs=True, n_batches=shape["n_batches"], in_memory=inmem)
+        return joker.rejection_sample(data, src, n_linear_samples=1, return_logprobs=True, n_batches=shape["n_batches"], in_memory=inmem,
+                                      n_prior_samples=shape.get("n_prior"))
     return joker.iterative_rejection_sample(data, src, n_requested_samples=1, n_linear_samples=1, return_logprobs=True, n_batches=shape["n_batches"],
                                             init_batch_size=1, in_memory=inmem)
 
@@ -118,7 +127,7 @@ def _harness(S, shape):
         second["raised"] = e
     second["files"] = sorted(w.files)
     second["log"] = list(w.log[n_log:])
-    user_ok = w.files.get("user_lib.hdf5") is user_fm and all(
+    user_ok = w.files.get("user_lib.hdf5") is user_fm and "user_lib.hdf5" in w.files and all(
         len(user_fm.columns[k].a) == len(v) and all(a is b for a, b in zip(user_fm.columns[k].a, v)) for k, v in user_snapshot.items()) and set(user_fm.columns) == set(user_snapshot)
     return {"first": first, "second": second, "lib": lib, "lnp": lnp, "user_ok": user_ok, "sites": list(w.sites)}
 
@@ -255,6 +264,12 @@ def run_shape(shape, tier):
             if fault:
                 n_fault_paths += 1
                 sink.check(path, "propagates", core.SB(z3.BoolVal(f["raised"] is not None)), site=tag, describe=desc)
+            elif shape.get("n_prior", 0) > shape["N"]:
+                # asking for more prior samples than there are must be refused (and still leave nothing behind)
+                sink.check(path, "too_many_requested_raises", core.SB(z3.BoolVal(isinstance(f["raised"], ValueError))), site=tag, describe=desc)
+            elif shape["src"] == "pathlike":
+                # the documented forms are a str file name or a JokerSamples: refusing anything else is fine, using it is fine, harming the file is not
+                sink.check(path, "no_spurious_exception", core.SB(z3.BoolVal(f["raised"] is None or isinstance(f["raised"], TypeError))), site=tag, describe=desc)
             else:
                 sink.check(path, "no_spurious_exception", core.SB(z3.BoolVal(f["raised"] is None)), site=tag, describe=desc)
             site2 = f["fault2"][1] if f.get("fault2") else None
@@ -262,6 +277,8 @@ def run_shape(shape, tier):
                 leaked = [p for p in f["files"] if p.startswith("/tmpmodel/")]
                 sink.check(path, "no_leaked_cache_file", core.SB(z3.BoolVal(not leaked)), site=tag, describe=lambda m: dict(desc(m), leaked=leaked))
             sink.check(path, "user_file_untouched", core.SB(z3.BoolVal(info["user_ok"] and _user_events_ok(f["log"]) and _user_events_ok(s2["log"]))), site=tag, describe=desc)
+            if shape.get("n_prior", 0) > shape["N"] or (shape["src"] == "pathlike" and isinstance(s2["raised"], TypeError)):
+                continue      # the follow-up call repeats the refused request
             # the next call on the same object works and leaves nothing behind
             ok2 = s2["raised"] is None and (site == "os.unlink" or site2 == "os.unlink" or not [p for p in s2["files"] if p.startswith("/tmpmodel/")])
             if ok2:
@@ -452,8 +469,11 @@ def replay(cand):
         joker.pool, joker.rng, joker.prior = Pool(), np.random.default_rng(1), object.__new__(thejoker.JokerPrior)
 
         def call():
-            src = fn if shape["src"] == "filename" else lib
+            import pathlib
+            src = fn if shape["src"] == "filename" else (pathlib.Path(fn) if shape["src"] == "pathlike" else lib)
             inmem = shape["src"] == "inmem"
+            if shape.get("n_prior"):
+                return joker.rejection_sample(None, src, n_linear_samples=1, return_logprobs=True, n_batches=shape["n_batches"], in_memory=inmem, n_prior_samples=len(lib) + 1)
             if shape["entry"] == "marginal":
                 return joker.marginal_ln_likelihood(None, src, n_batches=shape["n_batches"], in_memory=inmem)
             if shape["entry"] == "rejection":
@@ -471,8 +491,15 @@ def replay(cand):
             return {"reproduced": False, "detail": "the crash point %s#%s is not reached on the real build's call sequence" % (site, k)}
         if site is not None and raised is None:
             bad.append("the injected fault in %s did not reach the caller" % site)
-        if site is None and raised is not None:
+        refused_ok = (shape.get("n_prior") and isinstance(raised, ValueError)) or (shape["src"] == "pathlike" and isinstance(raised, TypeError))
+        if shape.get("n_prior") and not isinstance(raised, ValueError):
+            bad.append("n_prior_samples larger than the library was not refused with ValueError (got %r)" % (raised,))
+        if site is None and raised is not None and not refused_ok:
             bad.append("fault-free call raised %r" % (raised,))
+        if not os.path.exists(fn):
+            bad.append("the user's file was deleted")
+            lib.write(fn, overwrite=True)
+            sha0 = hashlib.sha256(open(fn, "rb").read()).hexdigest()
         left = glob.glob(os.path.join(tmpd, "*"))
         if left:
             bad.append("temporary files left behind: %s" % [os.path.basename(p) for p in left])
@@ -481,6 +508,8 @@ def replay(cand):
         active[0] = False
         FakeHelper.fail = {"kernel.ll": None, "kernel.post": None}
         try:
+            if refused_ok:
+                raise StopIteration
             r2 = call()
             if shape["entry"] == "marginal":
                 if not np.allclose(np.asarray(r2), -0.01 * lib["P"].value):
@@ -489,12 +518,16 @@ def replay(cand):
                 P = np.atleast_1d(r2["P"].value)
                 if len(P) < 1 or not all(np.any(np.isclose(p, lib["P"].value)) for p in P):
                     bad.append("follow-up call returned rows that are not library rows")
+        except StopIteration:
+            pass
         except Exception as e:
             bad.append("the next call on the same TheJoker object failed: %s: %s" % (type(e).__name__, str(e)[:120]))
         left = glob.glob(os.path.join(tmpd, "*"))
         if left:
             bad.append("temporary files left behind after the follow-up call")
-        if hashlib.sha256(open(fn, "rb").read()).hexdigest() != sha0:
+        if not os.path.exists(fn):
+            bad.append("the user's file was deleted by the follow-up call")
+        elif hashlib.sha256(open(fn, "rb").read()).hexdigest() != sha0:
             bad.append("the user's file was modified by the follow-up call")
         return {"reproduced": bool(bad), "detail": "; ".join(bad)[:800] or "fault at %s#%s handled correctly" % (site, k)}
     finally:
